@@ -983,7 +983,9 @@ def make_cases(pid, tier, seed):
             # real catalogue plus the configurations that really involve complex data (gauge-free selections)
             cs = list(catalogue.all_cases(rng, cx=False)) + [c for c in catalogue.all_cases(rng, cx=True) if _has_complex(c) and not c.get("gauge")]
         elif mode == "cplx":
-            cs = list(catalogue.all_cases(rng, cx=True))
+            # plus the kind-mixed configurations (real next to complex operands / list pieces): the convention
+            # decides what a real argument receives from a complex cotangent and vice versa
+            cs = list(catalogue.all_cases(rng, cx=True)) + [c for c in extra_struct_cases(rng) if "kindmix" in (c.get("tags") or [])]
         elif mode == "pair":
             cs = list(catalogue.all_cases(rng, cx=False)) + list(catalogue.all_cases(rng, cx=True))
         elif mode == "struct":
